@@ -498,6 +498,9 @@ def check_deloop(facts, rep):
     rows = D.get('unbased') or []
     inst = 'TngComplex::deloop|dual basis (unbased)'
     problems = []
+    if not rows or any('?' in r for r in rows):
+        rep.indet('E9.R6: delooping of an unbased circle outside the recognised fragment: %s' % rows)
+        return
     if sorted(r[0] for r in rows) != ['I', 'X']:
         problems.append('labels are %s, expected {X, I}' % [r[0] for r in rows])
     else:
@@ -518,6 +521,8 @@ def check_deloop(facts, rep):
     inst = 'TngComplex::deloop|based circle keeps X only'
     if D.get('based') == [('X', 'X', 'None')]:
         rep.ok('E9.R6-deloop-dual-basis', inst, str(D.get('based')))
+    elif not D.get('based') or any('?' in r for r in D.get('based')):
+        rep.indet('E9.R6: delooping of a based circle outside the recognised fragment: %s' % D.get('based'))
     else:
         rep.violation('E9.R6-deloop-dual-basis', inst, 'a based circle deloops to %s, expected [(X, birth X, death none)]' % D.get('based'), where=wh)
     inst = 'TngComplex::deloop_with|incoming capped with death, outgoing cupped with birth'
